@@ -1210,7 +1210,7 @@ pub fn run_enum(args: &Args, rep: &mut Report) {
     let max_schedules = args.usize("max-schedules", 3000);
     for (k, mut rng) in case_iter(args, 0xE9C3, 6) {
         // small scenarios: 2..3 threads, one or two operations each
-        let nthreads = if rng.chance(2, 3) { 2 } else { 3 };
+        let nthreads = if rng.chance(args.u64("p3", 1), 8) { 3 } else { 2 };
         let scenario = *rng.pick(&["identical-puts", "identical-puts", "nested-puts", "put-vs-get", "evict-race"]);
         let nchunks = rng.urange(3, 6);
         let t = TruthKey::gen(&mut rng, nchunks, 40);
